@@ -42,6 +42,23 @@ def impl_apply(names, via="identifiers"):
                 preproc.apply(idnt, preproc_names=list(names), options={})
             elif via == "keyword":
                 preproc.apply(apret=idnt, identifiers=list(names), options={})
+            elif via == "indentation-twice":
+                # the same request repeated on the same curve: the verdict of the second call counts
+                try:
+                    idnt.apply_preprocessing(list(names), options={})
+                except BaseException:  # noqa
+                    pass
+                idnt.apply_preprocessing(list(names), options={})
+            elif via == "fit_model-twice":
+                import nanite.fit as nfit
+                for last in (False, True):
+                    try:
+                        idnt.fit_model(preprocessing=list(names), model_key="hertz_para")
+                    except (KeyError, ValueError):
+                        if last:
+                            raise
+                    except (nfit.FitKeyError, nfit.FitDataError, IndexError):
+                        pass          # the list was accepted, the (tiny) curve cannot be fitted
             else:
                 idnt.apply_preprocessing(list(names), options={})
         return "ok"
@@ -110,7 +127,9 @@ def run(ctx):
     if ctx.tier == "thorough":
         ctx.leanchecker(["Nanite.Props.C14", "Nanite.Witness.C14"])
     from nanite import preproc
-    preproc.available.cache_clear()
+    for fn in (preproc.available, getattr(preproc, "_available", None)):
+        if hasattr(fn, "cache_clear"):
+            fn.cache_clear()
     steps = [f.identifier for f in preproc.PREPROCESSORS]
     req = {f.identifier: list(f.steps_required or []) for f in preproc.PREPROCESSORS}
     opt = {f.identifier: list(f.steps_optional or []) for f in preproc.PREPROCESSORS}
@@ -155,6 +174,34 @@ def run(ctx):
     # search / oracle: the property statement on the implementation, exhaustive
     for s in sels:
         oracle(ctx, steps, req, opt, s)
+    # the lists handed out belong to the caller: editing them must not change what a later call returns
+    sample = [s for s in sels if len(s) >= 2]
+    for s in rng.sample(sample, 60 if ctx.tier == "quick" else 600) + [list(steps)]:
+        try:
+            r1 = preproc.autosort(list(s))
+        except BaseException:  # noqa
+            continue
+        keep = list(r1)
+        r1.reverse()
+        r1.append("bogus_step")
+        r2 = preproc.autosort(list(s))
+        ctx.case({"op": "autosort-after-edit", "ids": s}, nontrivial="edit:" + ",".join(s), bucket="op=result-edited")
+        if r2 != keep:
+            ctx.violation("autosort-result-shared", f"autosort({s}) returned {keep}; after the caller edited that "
+                          f"list in place the same call returns {r2}", {"input": s, "observed": r2, "expected": keep})
+            break
+    a1 = preproc.available()
+    keep = list(a1)
+    a1.reverse()
+    a1.pop()
+    a2 = preproc.available()
+    ctx.case({"op": "available-after-edit"}, nontrivial="edit:available", bucket="op=result-edited")
+    if a2 != keep:
+        ctx.violation("available-result-shared", f"available() returned {keep}; after the caller edited that list in "
+                      f"place available() returns {a2}", {"history": ["a = available()", "a.reverse(); a.pop()",
+                                                                     "available()"], "observed": a2, "expected": keep})
+        del a1[:]
+        a1.extend(keep)           # (restore the shared object for the rest of the run)
     # available() itself valid
     try:
         preproc.check_order(preproc.available())
@@ -165,7 +212,9 @@ def run(ctx):
         exp_ok = all(p in steps for p in s) and all(r in s[:i] for i, p in enumerate(s) if p in req
                                                     for r in req[p])
         # every way of handing the list in gives the same verdict
-        for via in ("preproc_names", "keyword", "indentation"):
+        for via in ("preproc_names", "keyword", "indentation", "indentation-twice", "fit_model-twice"):
+            if via == "fit_model-twice" and (exp_ok or len(s) > 2):
+                continue          # (only rejected requests: an accepted one would start a fit)
             if len(s) <= 3 or sum(map(len, s)) % 7 == 0:
                 g2 = impl_apply(s, via=via)
                 if (g2 == "ok") != exp_ok:
